@@ -22,3 +22,5 @@ json.dump({'Replace': rep}, open(V + '/.cache/overlay.json', 'w'), indent=1)
 PY
 cd $REPO
 go build -tags verif -overlay $V/.cache/overlay.json -o $V/.cache/bin/harness ./pkg/netpol/zz_verifharness
+# the untouched command-line binary (C18: exit status, stdout of the real process)
+go build -o $V/.cache/bin/k8snetpolicy ./cmd/netpolicy
